@@ -46,3 +46,31 @@ def _(c):
     c.ensures("all(param_kind(result[j]) is kind_at(j, p, q, v, k) for j in range(len(result)))", name="kinds_in_cpython_order")
     c.ensures("all(same(param_name(result[j]), name_at(node.args, j, p, q, v, k)) for j in range(len(result)))", name="names_in_declaration_order")
     c.ensures("all((param_default(result[j]) is None) == no_default_at(node.args, j, p, q, d, v, k) for j in range(len(result)))", name="defaults_align_to_the_last_positional_parameters")
+
+
+@contract("pyanalyze.arg_spec.ArgSpecCache._make_sig_parameter", props=P + ["C05"])
+def _(c):
+    c.param("parameter", "val")
+    c.param("is_wrapped", "bool")
+    c.param("index", "int")
+    c.param("seen_paramspec_args", "val")
+    c.returns("pair[val,bool,val]")
+    c.fieldspec("kind", "val"); c.fieldspec("default", "val"); c.fieldspec("name", "str"); c.fieldspec("annotation", "val"); c.fieldspec("param_spec", "val")
+    c.callee("self._get_type_for_parameter", lambda k: (k.param("self", "val"), k.param("p", "val"), k.param("g", "val"), k.param("f", "val"), k.param("i", "val"), k.returns("obj:Value"),
+                                                        setattr(k, "functional", True), setattr(k, "fn_name", "_get_type_for_parameter")))
+    c.callee("is_positional_only_arg_name", lambda k: (k.param("name", "val"), k.param("cls", "val"), k.returns("bool"), setattr(k, "functional", True), setattr(k, "fn_name", "is_positional_only_arg_name")))
+    c.callee("_get_class_name", lambda k: (k.param("f", "val"), k.returns("val"), setattr(k, "functional", True), setattr(k, "fn_name", "_get_class_name")))
+    c.callee("ParameterKind", lambda k: (k.param("v", "val"), k.returns("val"), setattr(k, "functional", True), setattr(k, "fn_name", "ParameterKind.of")))
+    c.callee("AnyValue", lambda k: (k.param("s", "val"), k.returns("obj:Value")))
+    c.callee("KnownValue", lambda k: (k.param("v", "val"), k.returns("obj:KnownValue"), setattr(k, "functional", True), setattr(k, "fn_name", "new_KnownValue"), k.ensures("result is not None")))
+    c.callee("TypeVarValue", lambda k: (k.param("v", "val"), k.returns("obj:Value")))
+    legacy = "(parameter.kind == inspect.Parameter.POSITIONAL_OR_KEYWORD and is_positional_only_arg_name(parameter.name, _get_class_name(function_object)))"
+    made = "(result[0] is not None)"
+    # the runtime-object route keeps every declared parameter's name, kind and default; only a dunder-named positional-or-keyword
+    # parameter is re-read as positional-only (legacy convention) -- never a keyword-only, *args or **kwargs one
+    c.ensures(f"implies({made}, result[0].name == parameter.name)", name="keeps_the_declared_name")
+    c.ensures(f"implies({made}, (result[0].default is None) == (parameter.default is inspect.Parameter.empty))", name="default_iff_declared")
+    c.ensures(f"implies({made} and {legacy}, result[0].kind is ParameterKind.POSITIONAL_ONLY and result[1])", name="dunder_named_positional_or_keyword_parameter_is_positional_only")
+    c.ensures(f"implies({made} and not {legacy} and not (result[0].kind is ParameterKind.PARAM_SPEC), same(result[0].kind, ParameterKind(parameter.kind)) and not result[1])",
+              name="every_other_parameter_keeps_its_declared_kind")
+    c.assume("inspect.Parameter kinds map onto ParameterKind by value (ParameterKind(parameter.kind)); annotation translation (_get_type_for_parameter) is an opaque functional callee (C13's annotation half is bounded only)")
